@@ -12,6 +12,7 @@ import (
 	"fmt"
 	"go/ast"
 	"go/importer"
+	"go/printer"
 	"go/token"
 	"go/types"
 	"os"
@@ -388,6 +389,18 @@ func inlinePackage(p *packages.Package, newTypes map[string]*types.Package, leve
 	}
 	if dirty {
 		newTypes[p.PkgPath] = p.Types
+	}
+	if want := os.Getenv("LOWCHECK_DUMPSRC"); want != "" {
+		// debugging aid: print the (possibly rewritten) declaration the rules will see
+		for _, f := range files {
+			for _, d := range f.Decls {
+				if fd, ok := d.(*ast.FuncDecl); ok && p.Types.Name()+"."+fd.Name.Name == want {
+					fmt.Fprintf(os.Stderr, "---- %s after inlining ----\n", want)
+					printer.Fprint(os.Stderr, token.NewFileSet(), fd)
+					fmt.Fprintln(os.Stderr)
+				}
+			}
+		}
 	}
 	return nInl, true
 }
